@@ -122,28 +122,45 @@ FORM_CTYPE = "application/x-www-form-urlencoded"
 
 # ================================================================ the sent text and the reference scanner
 class Sent:
-    """Body text = concrete prefix + k symbolic bytes + concrete suffix.  Offsets are plain ints; only comparisons that
-    touch the symbolic bytes involve the solver."""
+    """Body text = concrete stretches with a few stretches of symbolic bytes in between.  Offsets are plain ints; only
+    comparisons that touch symbolic bytes involve the solver."""
 
     def __init__(self, pre, hole, post):
         self.pre, self.hole, self.post = pre, hole, post
-        self.a = len(pre)
-        self.b = self.a + len(hole)
-        self.n = self.b + len(post)
+        self._lay_out([(pre, False), (hole, True), (post, False)])
+
+    @classmethod
+    def of(cls, segments):
+        """from [(bytes, is_symbolic)]"""
+        self = cls.__new__(cls)
+        self._lay_out(segments)
+        return self
+
+    def _lay_out(self, segments):
+        self.segs = []                  # (start, data, is_symbolic): no empty ones, no two concrete neighbours
+        self.n = 0
+        for data, symbolic in segments:
+            if len(data) == 0:
+                continue
+            if self.segs and not symbolic and not self.segs[-1][2]:
+                start, before, _ = self.segs[-1]
+                self.segs[-1] = (start, before + data, False)
+            else:
+                self.segs.append((self.n, data, symbolic))
+            self.n += len(data)
 
     def pieces(self, before, after):
         """division into reads: the symbolic bytes with `before`/`after` bytes of context form one piece"""
-        lo = max(self.a - before, 0)
+        lo = max(len(self.pre) - before, 0)
         return [self.pre[:lo], self.pre[lo:] + self.hole + self.post[:after], self.post[after:]]
 
     def slice(self, i, j):
         i, j = max(i, 0), min(j, self.n)
-        p1 = self.pre[i:j]
-        p2 = self.hole[max(i - self.a, 0):max(j - self.a, 0)]
-        p3 = self.post[max(i - self.b, 0):max(j - self.b, 0)]
-        if len(p2) == 0:
-            return p1 + p3
-        return p1 + p2 + p3
+        out = b""
+        for start, data, _ in self.segs:
+            if start < j and i < start + len(data):
+                out = out + data[max(i - start, 0):j - start]
+        return out
 
     def whole(self):
         return self.slice(0, self.n)
@@ -151,19 +168,22 @@ class Sent:
     def occurrences(self, needle):
         """sorted offsets at which `needle` occurs"""
         m = len(needle)
-        out = []
-        i = self.pre.find(needle)
-        while i >= 0:
-            out.append(i)
-            i = self.pre.find(needle, i + 1)
-        for i in range(max(self.a - m + 1, 0), min(self.b - 1, self.n - m) + 1):
+        found = []
+        near_symbolic = []
+        for start, data, symbolic in self.segs:
+            if symbolic:
+                for i in range(max(start - m + 1, 0), min(start + len(data) - 1, self.n - m) + 1):
+                    if i not in near_symbolic:
+                        near_symbolic.append(i)
+            else:
+                i = data.find(needle)
+                while i >= 0:
+                    found.append(start + i)
+                    i = data.find(needle, i + 1)
+        for i in near_symbolic:
             if self.slice(i, i + m) == needle:
-                out.append(i)
-        i = self.post.find(needle)
-        while i >= 0:
-            out.append(self.b + i)
-            i = self.post.find(needle, i + 1)
-        return out
+                found.append(i)
+        return sorted(found)
 
 
 def first_at_or_after(offsets, pos):
@@ -395,6 +415,38 @@ def make_mp_hole(tag, name, kind, framing, t, before, after):
         sent = Sent(pre, h, post)
         stream, env = framed(sent.pieces(before, after), sent, framing, MP_CTYPE % boundary.decode())
         res = serve(kind, stream, t, env)
+        return judge(kind, res, sent, boundary), observed(res)
+    return checked(q)
+
+
+# Data that looks like the delimiter.  The parser strides through the data of a part in windows of len(CRLF "--" boundary)
+# bytes counted from the start of the data inside one read; a window ending in the first p bytes of the delimiter arms
+# "the next window must start with the rest".  '?' = symbolic byte: the byte after the partial delimiter and the first
+# byte of a later window that goes on with the rest of the delimiter.
+def data_template(boundary, rest):
+    token = CRLF + b"--" + boundary
+    n = len(token)
+    p = n - rest
+    return b"x" * rest + token[:p] + b"?" + b"y" * (n - 1) + b"?" + (token[p + 1:] + b"z" * n)[:n - 1] + b"w"
+
+
+def make_mp_data(boundary, rest, kind, framing):
+    """value = pad bytes + template, delivered in one read so that the windows are those of the parser's stride (a
+    following read that began with CRLF or a hyphen would make the parser, left waiting by a wrongly seen delimiter,
+    go on and fail later with a 4xx)"""
+    stride = len(CRLF + b"--" + boundary)
+    t0, t1, t2 = data_template(boundary, rest).split(b"?")
+    head = b"--" + boundary + CRLF + b"\r\n".join(G.H(b"f", b"a" if kind == "files" else None)) + CRLF + CRLF
+    tail = CRLF + b"--" + boundary + CRLF + G.H(b"g")[0] + CRLF + CRLF + b"2" + CRLF + b"--" + boundary + b"--" + CRLF
+
+    def q(h: bytes, pad: int):
+        assume(len(h) == 2 and 0 <= pad < stride)
+        value = [(b"p" * int(pad) + t0, False), (h[0:1], True), (t1, False), (h[1:2], True), (t2, False)]
+        sent = Sent.of([(head, False)] + value + [(tail, False)])
+        cut = sent.n - len(tail) + stride + 2     # the value arrives together with its delimiter line, the next read
+        pieces = [head, sent.slice(len(head), cut), sent.slice(cut, sent.n)]    # starts with the following part's header
+        stream, env = framed(pieces, sent, framing, MP_CTYPE % boundary.decode())
+        res = serve(kind, stream, 128, env)
         return judge(kind, res, sent, boundary), observed(res)
     return checked(q)
 
@@ -641,6 +693,21 @@ def queries(tier):
             for tag, name, kind, labels, cpu in HOLES_QUICK:
                 if cpu <= 6 and name != "delim-dash":   # there the parser's error text realises both bytes: 65536 paths
                     hole(tag, name, kind, "cl", ["answered"], cpu * 2, ctx)
+
+    # ---- multipart: data made of pieces of the delimiter, aligned to the parser's stride by a symbolic pad
+    data = [(b"b", 1, "forms", "cl"), (b"b", 2, "files", "chunked")]
+    if T:
+        data = [(bd, rest, kind, framing) for bd in (b"b", b"sep") for rest in range(1, len(bd) + 4)
+                for kind, framing in (("forms", "cl"), ("files", "chunked"))]
+    for bd, rest, kind, framing in data:
+        add("mp/data/%s/rest%d/%s/%s" % (bd.decode(), rest, kind, framing), make_mp_data(bd, rest, kind, framing),
+            "boundary %r, %s part whose data is `pad` filler bytes (pad symbolic, 0..%d) + %r with both '?' fully symbolic: "
+            "a window of the parser's stride (%d bytes, counted from the start of the data, which arrives in one read) "
+            "ends in the first %d bytes of the delimiter, the next window starts with a free byte, a later one with a "
+            "free byte + the rest of the delimiter; a second part follows; handler reads request.%s; %s framing"
+            % (bd, "file" if kind == "files" else "text", len(bd) + 3, data_template(bd, rest), len(bd) + 4,
+               len(bd) + 4 - rest, kind, framing), 240 if not T else 900, ["status-2xx", "delivered"], "mp/data",
+            {"boundary": bd.decode(), "rest": rest, "handler": kind, "framing": framing})
 
     # ---- multipart: truncation, buffer sizes, declared length, arbitrary short bodies
     trunc = [("text", "forms", "cl"), ("text", "forms", "chunked"), ("file", "files", "chunked-raw"), ("two", "files", "cl")]
